@@ -184,7 +184,7 @@ class PoolHandler:
     def __exit__(self, exc_type, exc_value, traceback):
         self.aspire_instance.log_likelihood = self.original_log_likelihood
         self.aspire_instance.log_prior = self.original_log_prior
-        if self.close_pool:
+        if self.close_pool and self.pool is not None:
             logger.debug("Closing pool")
             self.pool.close()
             self.pool.join()
